@@ -59,11 +59,14 @@ CLAIMS = {
              'scoping, arrays with value semantics, echo - i.e. everything the property says about whole programs beyond these three branches.',
         ref='DESIGN.md §4 C07'),
     'C08': dict(
-        text='Kernel only: overload resolution. Run time (unit OVL): valueConversionCost follows the cost table (exact 0, int->long 1, null 3 for class parameters, inheritance distance for classes over an uninterpreted hierarchy, nothing else fits), '
+        text='Kernel only: (a) overload resolution. Run time (unit OVL): valueConversionCost follows the cost table (exact 0, int->long 1, null 3 for class parameters, inheritance distance for classes over an uninterpreted hierarchy, nothing else fits), '
              'argumentsConversionCost is the sum of the per-argument costs with arity check (loop invariant, ghost fold), and the selection loop of findMethod returns the unique minimum-cost candidate and nothing on a tie (ghost cursor). '
-             'Compile time (unit SEMK): conversionCost follows the same table, so both sides rank candidates identically on matching static/dynamic types (written lemma over the two contracts).',
-        note=TB + 'NOT covered: construction order, field initialisers, vtable building and virtual dispatch, super calls, static fields, generics, destructor chains (unordered_map / shared_ptr / recursion through exec are outside the lowering); the candidate '
-             'collection loops; and the stamping of a reference with its DECLARED class at declaration / parameter binding - observed defect: `A a = new Sub(); k.g(a)` runs g(Sub) although the analyser resolved g(A) (native oracle, label site.binding.*).',
+             'Compile time (unit SEMK): conversionCost follows the same table, so both sides rank candidates identically on matching static/dynamic types (written lemma over the two contracts). '
+             '(b) destructor order (unit OBJM): the destructor walk of destroyObject visits the whole chain obj->cls, base, ... (class table of up to 8 classes, acyclic), enters the destructor of every class that declares one exactly once, executes its first statement, '
+             'derived class before base class (two ghost chain positions), each in its own class context with `this` bound to the object and stamped with that class, one scope deep, and restores context and scope depth (two nested loop contracts).',
+        note=TB + 'exec / beginScope / endScope / the `this` binding are models with bodies that only record ghost events. NOT covered: construction order (base constructor, field initialisers, body), vtable building and virtual dispatch, super calls, static fields, generics, WHEN destroyObject is called '
+             '(reference counting / cycle collector; observed: a constructor ending in `return this;` leaves a hidden reference in m_returnValue, so `destroy` of that object never runs its destructor), the candidate '
+             'collection loops, and the stamping of a reference with its DECLARED class at declaration / parameter binding - observed defect: `A a = new Sub(); k.g(a)` runs g(Sub) although the analyser resolved g(A) (native oracle, label site.binding.*).',
         ref='DESIGN.md §4 C08'),
     'C09': dict(
         text='Kernel only, with ghost state: (a) the scope-stack walk of RuntimeEvaluator::lookup and ::assign is proved to find / write the innermost binding of the name and to leave every other entry untouched (ghost scope and entry index, loop '
